@@ -154,6 +154,9 @@ def run(prop, tier, seed, ws, directives, args, t_start):
             opts["map_perm_max"] = int(dv["map_perm_max"])
         if dv.get("sched") == "coop":
             opts["no_preempt"] = True
+        if "preempt" in dv:
+            pb = dv["preempt"].split("/")
+            opts["preempt_bound"] = int(pb[-1] if tier == "thorough" else pb[0])
         if dv.get("time") == "concrete":
             opts["concrete_time"] = True
         opts["job_seconds"] = 15
@@ -179,7 +182,7 @@ def run(prop, tier, seed, ws, directives, args, t_start):
         expect_blocked = dv.get("blocked") == "ok"
         for b in r.blocked:
             if not expect_blocked:
-                hv.append(("blocked", "blocked", None, None, b["info"]))
+                hv.append(("blocked", "blocked", None, b.get("tape"), b["info"]))
         if r.truncated:
             problems.append("%s: exploration truncated (max_paths/budget) after %d paths" % (name, r.paths))
         for p in r.problems[:5]:
@@ -196,8 +199,10 @@ def run(prop, tier, seed, ws, directives, args, t_start):
         # native validation (batched per package after the loop)
         replay_mode = dv.get("replay", "exact")
         pd = pkg_of[name]
-        if replay_mode == "exact":
+        if replay_mode in ("exact", "schedule"):
             jobs = [(name, w) for w in r.witnesses[:int(dv.get("witnesses", 24))]]
+            if replay_mode == "schedule":
+                jobs = []   # a witness of one interleaving does not determine the native schedule
             seen = set()
             vio_jobs = []
             for v in hv:
